@@ -272,6 +272,63 @@ def finding_matches(f, pid, line, r, sp, mode):
     return True
 
 
+def shrink(v, answer, known, pid, rounds=8):
+    """Greedy operand shrinking of one violating request: zero out / drop parts of its hex operands while the
+    real crate's answer (same build mode) is still not allowed by the spec.  Returns the smallest request found."""
+    mode = v["mode"]
+    best = dict(v)
+
+    def size(line):
+        return (len(line), sum(c != "0" for c in line.split(" ", 2)[-1]))
+
+    for _ in range(rounds):
+        toks = best["line"].split(" ")
+        cands = set()
+        for ti in range(2, len(toks)):
+            t = toks[ti]
+            if not re.fullmatch(r"[0-9a-f]+", t) or t in ("0", "00"):
+                continue
+            even = len(t) % 2 == 0 and len(t) > 2
+            outs = {"0" if not even else "00", "1" if not even else "01"}
+            h = len(t) // 2
+            if even and h % 2:
+                h += 1
+            if 0 < h < len(t):
+                outs.add(t[h:].lstrip("0") or "0" if not even else t[h:])
+                outs.add(t[:h] + "0" * (len(t) - h))
+                outs.add(t[:h] if (not even or h % 2 == 0) else t)
+            step = 2
+            pos = list(range(0, len(t) - 1, step))
+            if len(pos) > 24:
+                pos = pos[:: len(pos) // 24 + 1]
+            for k in pos:
+                if t[k:k + 2] != "00":
+                    z = t[:k] + "00" + t[k + 2:]
+                    outs.add(z if even else (z.lstrip("0") or "0"))
+            for o in outs:
+                if o and o != t:
+                    cands.add(" ".join(toks[:ti] + [o] + toks[ti + 1:]))
+        cands = sorted(c for c in cands if size(c) < size(best["line"]))
+        if not cands:
+            break
+        R, ms = answer(cands)
+        better = None
+        for i, c in enumerate(cands):
+            r = R.get(mode, [None] * len(cands))[i]
+            if r in (None, "skip", "bad-op") or "\t" not in ms[i] or ms[i] == "bad-op":
+                continue
+            mo, sp = ms[i].split("\t", 1)
+            if sp_match(r, sp) or any(finding_matches(f, pid, c, r, sp, mode) for f in known):
+                continue
+            if better is None or size(c) < size(better["line"]):
+                better = {"line": c, "mode": mode, "crate": r, "spec": sp, "model": mo}
+        if better is None:
+            break
+        best = better
+    best["from"] = v["line"]
+    return best
+
+
 def nontrivial(line):
     toks = line.split(" ")[2:]
     return any(t not in ("0", "1", "-", "dbg", "rel") for t in toks)
@@ -360,10 +417,8 @@ def main():
         broken += proof["problems"]
     broken += extra_problems
     n_eval = 0
-    if bins is None:
-        broken.append(herr)
-        R = {}
-    else:
+    def answer(lines):
+        """the real crate's answers per build mode, and the driver's `model<TAB>spec` answers"""
         if allbins:
             R = {}
             route = [mod.ROUTE(l) for l in lines]
@@ -377,7 +432,14 @@ def main():
                 R[m] = [o if o is not None else "bad-op" for o in outs]
         else:
             R = {m: run_chunked(exe, lines) for m, exe in bins.items()}
-    mo_sp = run_chunked(driver, lines)
+        return R, run_chunked(driver, lines)
+
+    if bins is None:
+        broken.append(herr)
+        R = {}
+        mo_sp = run_chunked(driver, lines)
+    else:
+        R, mo_sp = answer(lines)
     known = load_known()
     internal = []
     unmodelled = {}
@@ -431,8 +493,21 @@ def main():
         print(f"KNOWN-FINDING: property={pid} {k} {v['f']['what']} [{v['n']} cases, e.g. {v['example']}]")
     if violations:
         violations.sort(key=lambda v: len(v["line"]))
+        minimised = []
+        if bins is not None and not a.replay:
+            seen_ops = set()
+            for v in violations:
+                op = v["line"].split(" ")[0]
+                if op in seen_ops or len(seen_ops) >= 3 or "line" not in v:
+                    continue
+                seen_ops.add(op)
+                try:
+                    minimised.append(shrink(v, answer, known, pid))
+                except Exception as e:      # the shrinker is a convenience; never let it change the verdict
+                    minimised.append({"from": v["line"], "error": repr(e)[:200]})
         replay_path = os.path.join(REPLAYS, f"{pid}-{seed}.json")
         json.dump({"property": pid, "kind": "property violated on concrete input (crate answer not allowed by spec)",
+                   "minimised": minimised,
                    "cases": violations[:25], "total": len(violations), "broken_obligations": broken[:5],
                    "replay": f"./check.py {pid} --replay {replay_path}"}, open(replay_path, "w"), indent=1)
         print(f"VIOLATION property={pid} replay={replay_path}")
